@@ -105,6 +105,24 @@ def sc_compete(ident, nsched, delays, hold, fail_first, kill=None, latch_at=None
                           latch_at=latch_at, barrier=barrier))
 
 
+def sc_orphan(ident, n, nlater, latch_delay, hold):
+    """C05 (c) / C11: experiment x0 is killed at its n-th executed line (chosen right after Popen, around the write
+    of the pid file), leaving a job process nobody recorded; nlater other experiments then submit the same job
+    while that process is still in its body"""
+    runs = [dict(sid="S0", slot=0, run=0, xpname="x0", kill=dict(n=n, sig="KILL", funcs=KILLFUNCS + ["aio_submit"]))]
+    script = [dict(when={"t": 0}, do={"start": ["S0", 0]})]
+    for k in range(1, nlater + 1):
+        runs.append(dict(sid=f"S{k}", slot=k, run=0, xpname=f"x{k}"))
+        script.append(dict(when={"dead": ["S0", 0]}, do={"start": [f"S{k}", 0]}))
+    idx = len(script)
+    script.append(dict(when={"all": [{"phase": [f"S{k}", 0, "submitted"]} for k in range(1, nlater + 1)]}, do={"write": ["noop", ""]}))
+    script.append(dict(when={"after": [idx, latch_delay]}, do={"touch": "latch.all"}))
+    script.append(dict(when={"all": [{"t": 15}, {"dead": ["S0", 0]}]}, do={"touch": "latch.all"}, optional=True))
+    return dict(id=ident, kind="one", tags=[1], timeout=50, files={"hold.1": str(hold)}, runs=runs, script=script,
+                meta=dict(family="compete", nsched=nlater + 1, delays=[], hold=hold, fail_first=False, kill=[0, n],
+                          latch_at=latch_delay, barrier=False, orphan=True))
+
+
 def sc_done_marker(ident, pre, nsched, concurrent, real_first):
     """C05 (b): the success marker is there (made by hand, or by a real first experiment); later
     experiments submit the job"""
